@@ -939,14 +939,18 @@ Definition tasks_evolve (s s' : state) : Prop :=
      exists a t g final deps kind,
        y = fresh_task k t g a final deps kind /\ submit_ok s a k t g final deps kind) /\
   (forall k1 k2 y1 y2, find_task k1 (tasks s) = None -> find_task k2 (tasks s) = None ->
-     find_task k1 (tasks s') = Some y1 -> find_task k2 (tasks s') = Some y2 -> k1 = k2).
+     find_task k1 (tasks s') = Some y1 -> find_task k2 (tasks s') = Some y2 -> k1 = k2) /\
+  (* at most one task changes *)
+  (forall k1 k2 x1 x2 y1 y2, find_task k1 (tasks s) = Some x1 -> find_task k2 (tasks s) = Some x2 ->
+     find_task k1 (tasks s') = Some y1 -> find_task k2 (tasks s') = Some y2 ->
+     y1 <> x1 -> y2 <> x2 -> k1 = k2).
 
 Lemma evolve_upd s s' k x f :
   find_task k (tasks s) = Some x -> (forall z, k_id z = k -> k_id (f z) = k) ->
   tasks s' = upd_task k f (tasks s) -> tstep s x (f x) -> leave_ok s s' k x (f x) ->
   tasks_evolve s s'.
 Proof.
-  intros Hf Hid Ht Hts Hl. split; [|split].
+  intros Hf Hid Ht Hts Hl. split; [|split; [|split]].
   - intros k0 x0 H0. rewrite Ht, find_task_upd' by exact Hid.
     destruct (k0 =? k) eqn:E.
     + assert (k0 = k) by lia. subst k0. rewrite Hf in H0. injection H0 as <-.
@@ -956,6 +960,9 @@ Proof.
     destruct (k0 =? k); [rewrite Hn in Hy; discriminate|congruence].
   - intros k1 k2 y1 y2 H1 _ Hy1 _. rewrite Ht, find_task_upd' in Hy1 by exact Hid.
     destruct (k1 =? k); [rewrite H1 in Hy1; discriminate|congruence].
+  - intros k1 k2 x1 x2 y1 y2 H1 H2 Hy1 Hy2 N1 N2.
+    rewrite Ht, find_task_upd' in Hy1, Hy2 by exact Hid.
+    destruct (k1 =? k) eqn:E1; [|congruence]. destruct (k2 =? k) eqn:E2; [lia|congruence].
 Qed.
 
 Ltac lo_tac :=
@@ -971,11 +978,12 @@ Proof.
   destruct H as [Ht Hs _|k t g0 a final deps kind Hn Hso Ht _ Hs _|k x f Hf Hid Hts Hio Ht Hs _
                 |k x sem v Hf _ _ Hst Hp Ht _ Hs _|k x Hf Hst Hp Hni _ Ht Hs _ _|k x rest Hf Hst Hni Hq _ Ht Hs _ _
                 |k x Hf Hni Hst Hb Ht Hs _ _|k x Hf Hst Hr _ Ht _ Hs _|g0 _ Ht _ _ _ Hs|g0 _ Ht _ _ _ _ _ Hs].
-  - split; [|split]; rewrite Ht.
+  - split; [|split; [|split]]; rewrite Ht.
     + intros k x Hx. exists x. split; [exact Hx|]. split; [constructor|now apply leave_ok_same_st].
     + intros; congruence.
     + intros; congruence.
-  - split; [|split]; rewrite Ht.
+    + intros; congruence.
+  - split; [|split; [|split]]; rewrite Ht.
     + intros k0 x Hx. rewrite find_task_app, Hx. exists x. split; [reflexivity|].
       split; [constructor|now apply leave_ok_same_st].
     + intros k0 y Hy Hn0. rewrite find_task_app, Hn0 in Hy. cbn [k_id fresh_task] in Hy.
@@ -984,18 +992,21 @@ Proof.
     + intros k1 k2 y1 y2 H1 H2 Hy1 Hy2. rewrite find_task_app, H1 in Hy1. rewrite find_task_app, H2 in Hy2.
       cbn [k_id fresh_task] in *.
       destruct (k =? k1) eqn:E1; [|discriminate]. destruct (k =? k2) eqn:E2; [|discriminate]. lia.
+    + intros k1 k2 x1 x2 y1 y2 H1 H2 Hy1 Hy2 N1 N2. rewrite find_task_app, H1 in Hy1. congruence.
   - apply (evolve_upd s s' k x f Hf Hid Ht Hts). destruct Hio. constructor; assumption.
   - apply (evolve_upd s s' k x (fun y => with_permit y sem) Hf (fun z Hz => Hz) Ht); [now apply ts_permit|now apply leave_ok_same_st].
   - apply (evolve_upd s s' k x (fun y => with_st y TQueued) Hf (fun z Hz => Hz) Ht); [now apply ts_enqueue|]. lo_tac.
   - apply (evolve_upd s s' k x (fun y => with_st y TStarted) Hf (fun z Hz => Hz) Ht); [now apply ts_start|]. lo_tac.
   - apply (evolve_upd s s' k x (fun y => with_st y TEnded) Hf (fun z Hz => Hz) Ht); [now apply ts_end|]. lo_tac.
   - apply (evolve_upd s s' k x with_released Hf (fun z Hz => Hz) Ht); [now apply ts_release|now apply leave_ok_same_st].
-  - split; [|split]; rewrite Ht.
+  - split; [|split; [|split]]; rewrite Ht.
     + intros k x Hx. exists x. split; [exact Hx|]. split; [constructor|now apply leave_ok_same_st].
     + intros; congruence.
     + intros; congruence.
-  - split; [|split]; rewrite Ht.
+    + intros; congruence.
+  - split; [|split; [|split]]; rewrite Ht.
     + intros k x Hx. exists x. split; [exact Hx|]. split; [constructor|now apply leave_ok_same_st].
+    + intros; congruence.
     + intros; congruence.
     + intros; congruence.
 Qed.
@@ -1013,7 +1024,7 @@ Lemma task_inv_reachable (P : task -> Prop) s0 :
 Proof.
   intros H0 Hnew Hstep. apply (invariant_reachable (fun s => forall k x, find_task k (tasks s) = Some x -> P x)).
   - rewrite H0. intros; discriminate.
-  - intros s e s' I H k y Hy. apply step_evolve in H as (Hold & Hfresh & _).
+  - intros s e s' I H k y Hy. apply step_evolve in H as (Hold & Hfresh & _ & _).
     destruct (find_task k (tasks s)) as [x|] eqn:E.
     + destruct (Hold k x E) as (y' & Hy' & Hts & _). rewrite Hy in Hy'. injection Hy' as <-.
       eapply Hstep; eauto.
@@ -1224,7 +1235,7 @@ Record req_inv (s : state) : Prop := {
 
 Lemma req_inv_step s e s' : req_inv s -> step s e = Some s' -> req_inv s'.
 Proof.
-  intros [R1 R2] H. pose proof (step_evolve _ _ _ H) as (Hold & _ & _). apply step_rstep in H.
+  intros [R1 R2] H. pose proof (step_evolve _ _ _ H) as (Hold & _ & _ & _). apply step_rstep in H.
   destruct H as [Hr|a r op t uid Hb Hfr Hwho Hr Ht|r f Hf Hr Ht].
   - constructor; unfold inflight; rewrite Hr; [|exact R2].
     intros q Hq He Hop. destruct (R1 q Hq He Hop) as (x & Hx & Hst & Hxt & Hk).
@@ -1444,7 +1455,7 @@ Definition task_coord_inv (s : state) : Prop :=
 
 Lemma task_coord_inv_step s e s' : task_coord_inv s -> step s e = Some s' -> task_coord_inv s'.
 Proof.
-  intros I H k y Hy. pose proof (step_evolve _ _ _ H) as (Hold & Hnew & _).
+  intros I H k y Hy. pose proof (step_evolve _ _ _ H) as (Hold & Hnew & _ & _).
   destruct (find_task k (tasks s)) as [x|] eqn:E.
   - destruct (Hold k x E) as (y' & Hy' & Hts & _). rewrite Hy in Hy'. injection Hy' as <-.
     destruct (tstep_static _ _ _ Hts) as (_ & -> & _). destruct (I k x E) as (c & Hc).
@@ -1476,7 +1487,7 @@ Definition failed_done_inv (s : state) : Prop :=
 
 Lemma failed_done_inv_step s e s' : failed_done_inv s -> step s e = Some s' -> failed_done_inv s'.
 Proof.
-  intros I H k y Hy Hp Hok. pose proof (step_evolve _ _ _ H) as (Hold & Hnew & _).
+  intros I H k y Hy Hp Hok. pose proof (step_evolve _ _ _ H) as (Hold & Hnew & _ & _).
   destruct (find_task k (tasks s)) as [x|] eqn:E.
   - destruct (Hold k x E) as (y' & Hy' & Hts & Hl). rewrite Hy in Hy'. injection Hy' as <-.
     destruct (tstep_static _ _ _ Hts) as (_ & Et & _). rewrite Et.
@@ -1643,3 +1654,839 @@ Proof.
             | rewrite (on_task_coords _ _ _ _ H); exact G ]. }
   all: left; destr_to H; nns_fin H.
 Qed.
+
+(** * Part 11 (C03): the plan facts as invariants *)
+Lemma evolve_pred s s' k y :
+  tasks_evolve s s' -> find_task k (tasks s') = Some y ->
+  (exists x, find_task k (tasks s) = Some x /\ tstep s x y /\ leave_ok s s' k x y) \/
+  (find_task k (tasks s) = None /\
+   exists a t g final deps kind, y = fresh_task k t g a final deps kind /\
+                                 submit_ok s a k t g final deps kind).
+Proof.
+  intros (Hold & Hnew & _ & _) Hy. destruct (find_task k (tasks s)) as [x|] eqn:E.
+  - left. destruct (Hold k x E) as (y' & Hy' & H1 & H2). rewrite Hy in Hy'. injection Hy' as <-. eauto.
+  - right. split; [reflexivity|]. eapply Hnew; eauto.
+Qed.
+
+Lemma tstep_past_main_mono s x y : tstep s x y -> past_main (k_st x) = true -> past_main (k_st y) = true.
+Proof. intros H Hp. now destruct (tstep_past_main _ _ _ H Hp). Qed.
+
+Lemma tstep_ended s x y : tstep s x y -> k_st x = TEnded -> k_st y = TEnded.
+Proof.
+  intros H He. destruct H; cbn; auto; try congruence.
+Qed.
+
+Definition after_deps (v : tst) : bool :=
+  match v with TSubmitting | TQueued | TStarted => false | _ => true end.
+
+Record plan_inv (s : state) : Prop := {
+  (* no task of a transfer is created after its final task *)
+  pi_last : forall kf F kx x, find_task kf (tasks s) = Some F -> find_task kx (tasks s) = Some x ->
+            k_final F = true -> k_t x = k_t F -> kx <= kf;
+  (* when the final task exists every other task is the submission task, one of
+     its dependencies, past its main, or an IO task next to an IO final task *)
+  pi_plan : forall kf F kx x, find_task kf (tasks s) = Some F -> find_task kx (tasks s) = Some x ->
+            k_final F = true -> k_t x = k_t F -> kx <> kf ->
+            k_kind x = KSubmission \/ In kx (k_deps F) \/ past_main (k_st x) = true \/
+            (k_stage x = SIO /\ k_stage F = SIO);
+  (* a task past its dependency wait has all its dependencies ended *)
+  pi_deps : forall kf F d, find_task kf (tasks s) = Some F -> after_deps (k_st F) = true ->
+            In d (k_deps F) -> exists x, find_task d (tasks s) = Some x /\ k_st x = TEnded;
+  (* dependencies are tasks of the same transfer and stage *)
+  pi_dept : forall kf F d, find_task kf (tasks s) = Some F -> In d (k_deps F) ->
+            exists x, find_task d (tasks s) = Some x /\ k_t x = k_t F /\ k_stage x = k_stage F
+}.
+
+Lemma no_final_absurd s t kf F :
+  existsb (fun x => (k_t x =? t) && k_final x) (tasks s) = false ->
+  find_task kf (tasks s) = Some F -> k_final F = true -> k_t F = t -> False.
+Proof.
+  intros Hn HF Hfin Ht. apply find_task_in in HF as [Hin _].
+  assert (existsb (fun x => (k_t x =? t) && k_final x) (tasks s) = true); [|congruence].
+  apply existsb_exists. exists F. split; [exact Hin|]. rewrite Hfin, Ht, Z.eqb_refl. reflexivity.
+Qed.
+
+Lemma plan_inv_step s e s' : plan_inv s -> step s e = Some s' -> plan_inv s'.
+Proof.
+  intros [I1 I2 I3 I4] H. pose proof (step_evolve _ _ _ H) as Hev.
+  constructor.
+  - intros kf F' kx x' HF' Hx' Hfin Ht.
+    destruct (evolve_pred _ _ _ _ Hev HF') as [(F & HF & HtsF & _)|(HFn & a & t & g & fin & deps & kind & -> & Hso)];
+    destruct (evolve_pred _ _ _ _ Hev Hx') as [(x & Hx & Htsx & _)|(Hxn & a2 & t2 & g2 & fin2 & deps2 & kind2 & -> & Hso2)].
+    + destruct (tstep_static _ _ _ HtsF) as (_ & E1 & _ & _ & E2 & _).
+      destruct (tstep_static _ _ _ Htsx) as (_ & E3 & _).
+      eapply I1; eauto; congruence.
+    + exfalso. destruct (tstep_static _ _ _ HtsF) as (_ & E1 & _ & _ & E2 & _). cbn in Ht.
+      eapply (no_final_absurd s t2); [exact (so_nofinal _ _ _ _ _ _ _ _ Hso2)|exact HF|congruence|congruence].
+    + pose proof (so_ids _ _ _ _ _ _ _ _ Hso) as Hids. rewrite forallb_forall in Hids.
+      destruct (find_task_in _ _ _ Hx) as [Hin Hid]. specialize (Hids x Hin). lia.
+    + destruct Hev as (_ & _ & Huniq & _). rewrite (Huniq _ _ _ _ HFn Hxn HF' Hx'). lia.
+  - intros kf F' kx x' HF' Hx' Hfin Ht Hne.
+    destruct (evolve_pred _ _ _ _ Hev HF') as [(F & HF & HtsF & _)|(HFn & a & t & g & fin & deps & kind & -> & Hso)];
+    destruct (evolve_pred _ _ _ _ Hev Hx') as [(x & Hx & Htsx & _)|(Hxn & a2 & t2 & g2 & fin2 & deps2 & kind2 & -> & Hso2)].
+    + destruct (tstep_static _ _ _ HtsF) as (_ & E1 & E1s & _ & E2 & E2d & _).
+      destruct (tstep_static _ _ _ Htsx) as (_ & E3 & E3s & _ & _ & _ & E3k).
+      rewrite E3k, E2d, E3s, E1s.
+      destruct (I2 kf F kx x HF Hx) as [G|[G|[G|G]]]; try congruence; auto.
+      right. right. left. eapply tstep_past_main_mono; eauto.
+    + exfalso. destruct (tstep_static _ _ _ HtsF) as (_ & E1 & _ & _ & E2 & _). cbn in Ht.
+      eapply (no_final_absurd s t2); [exact (so_nofinal _ _ _ _ _ _ _ _ Hso2)|exact HF|congruence|congruence].
+    + cbn [k_final k_t k_deps k_stage fresh_task] in *. subst fin.
+      pose proof (so_final _ _ _ _ _ _ _ _ Hso eq_refl) as Hall. rewrite forallb_forall in Hall.
+      destruct (find_task_in _ _ _ Hx) as [Hin Hid]. specialize (Hall x Hin).
+      destruct (tstep_static _ _ _ Htsx) as (_ & E3 & E3s & _ & _ & _ & E3k).
+      rewrite E3k, E3s. rewrite E3 in Ht.
+      assert (Et : (k_t x =? t) = true) by lia. rewrite Et in Hall. cbn [negb orb] in Hall.
+      apply orb_prop in Hall as [Hall|Hall].
+      * apply orb_prop in Hall as [Hall|Hall].
+        -- apply orb_prop in Hall as [Hall|Hall]; [left; lia|].
+           right. left. apply mem_z_true in Hall. now rewrite Hid in Hall.
+        -- right. right. left. eapply tstep_past_main_mono; eauto.
+      * right. right. right. apply andb_prop in Hall as [G1 G2].
+        split; now apply stage_eqb_eq.
+    + exfalso. destruct Hev as (_ & _ & Huniq & _). apply Hne. symmetry. exact (Huniq _ _ _ _ HFn Hxn HF' Hx').
+  - intros kf F' d HF' Had Hd.
+    destruct (evolve_pred _ _ _ _ Hev HF') as [(F & HF & HtsF & _)|(HFn & a & t & g & fin & deps & kind & -> & Hso)].
+    + destruct (tstep_static _ _ _ HtsF) as (_ & E1 & _ & _ & _ & E2d & _). rewrite E2d in Hd.
+      assert (G : exists x, find_task d (tasks s) = Some x /\ k_st x = TEnded).
+      { destruct (after_deps (k_st F)) eqn:EF; [eapply I3; eauto|].
+        destruct HtsF; cbn [k_st with_st with_flags with_phase with_assoc with_permit with_released] in Had;
+          try congruence;
+          try (match goal with Hst : k_st _ = _ |- _ => rewrite Hst in *; discriminate end).
+        - (* deps done *)
+          rewrite forallb_forall in H1. specialize (H1 d Hd). unfold dep_done, task_in in H1.
+          destruct (find_task d (tasks s)) as [x0|] eqn:Ed; [|discriminate].
+          exists x0. split; [reflexivity|now apply tst_eqb_true].
+        - destruct (k_final x); match goal with Hst : k_st _ = _ |- _ => rewrite Hst in EF; discriminate end. }
+      destruct G as (x & Hx & Hxe). destruct Hev as (Hold & _ & _ & _).
+      destruct (Hold d x Hx) as (y & Hy & Hts & _). exists y. split; [exact Hy|].
+      eapply tstep_ended; eauto.
+    + cbn in Had. destruct (stage_eqb g SInline); discriminate.
+  - intros kf F' d HF' Hd.
+    assert (G : exists x, find_task d (tasks s) = Some x /\ k_t x = k_t F' /\ k_stage x = k_stage F').
+    { destruct (evolve_pred _ _ _ _ Hev HF') as [(F & HF & HtsF & _)|(HFn & a & t & g & fin & deps & kind & -> & Hso)].
+      - destruct (tstep_static _ _ _ HtsF) as (_ & E1 & E1s & _ & _ & E2d & _). rewrite E2d in Hd. rewrite E1, E1s.
+        eapply I4; eauto.
+      - cbn [k_deps k_t k_stage fresh_task] in *. pose proof (so_deps _ _ _ _ _ _ _ _ Hso) as Hall.
+        rewrite forallb_forall in Hall. specialize (Hall d Hd).
+        destruct (find_task d (tasks s)) as [x|]; [|discriminate]. exists x. split; [reflexivity|].
+        apply andb_prop in Hall as [G1 G2]. split; [lia|now apply stage_eqb_eq]. }
+    destruct G as (x & Hx & Hxt & Hxs). destruct Hev as (Hold & _ & _ & _).
+    destruct (Hold d x Hx) as (y & Hy & Hts & _). exists y. split; [exact Hy|].
+    destruct (tstep_static _ _ _ Hts) as (_ & E & Es & _). split; congruence.
+Qed.
+
+Lemma plan_inv_reachable a b c d e f g h s : reachable (init a b c d e f g h) s -> plan_inv s.
+Proof.
+  apply invariant_reachable; [constructor; intros; discriminate|].
+  intros s0 ev s1 I H. eapply plan_inv_step; eauto.
+Qed.
+
+(** * Part 12 (C03): when the final task passed its done-check every other step had succeeded *)
+Definition after_check (F : task) : Prop := k_st F = TReady \/ k_ran_main F = true.
+Definition good (x : task) : Prop :=
+  past_main (k_st x) = true /\ k_main_ok x = true /\ k_skipped x = false /\ k_ran_main x = true.
+Definition covered (F : task) (kx : Z) (x : task) : Prop :=
+  k_kind x <> KSubmission /\ (In kx (k_deps F) \/ ~ (k_stage x = SIO /\ k_stage F = SIO)).
+
+Definition good_inv (s : state) : Prop :=
+  forall kf F kx x, find_task kf (tasks s) = Some F -> find_task kx (tasks s) = Some x ->
+    k_final F = true -> k_t x = k_t F -> kx <> kf -> after_check F -> covered F kx x -> good x.
+
+Lemma good_stable s x y : tstep s x y -> good x -> good y.
+Proof.
+  intros H (G1 & G2 & G3 & G4). destruct (tstep_past_main _ _ _ H G1) as (E1 & E2 & E3 & E4).
+  unfold good. rewrite E1, E2, E3, E4. auto.
+Qed.
+
+Lemma good_inv_step a b c d e0 f g h s e s' :
+  reachable (init a b c d e0 f g h) s -> good_inv s -> step s e = Some s' -> good_inv s'.
+Proof.
+  intros Hr I H kf F' kx x' HF' Hx' Hfin Ht Hne Hac Hcov.
+  pose proof (step_evolve _ _ _ H) as Hev.
+  pose proof (plan_inv_reachable _ _ _ _ _ _ _ _ _ Hr) as [P1 P2 P3 P4].
+  pose proof (flags_reachable _ _ _ _ _ _ _ _ _ Hr) as Hfl.
+  pose proof (failed_done_inv_reachable _ _ _ _ _ _ _ _ _ Hr) as Hfd.
+  destruct (evolve_pred _ _ _ _ Hev HF') as [(F & HF & HtsF & _)|(HFn & a1 & t & g1 & fin & deps & kind & -> & Hso)].
+  2: { exfalso. destruct Hac as [Hac|Hac]; cbn in Hac; [destruct (stage_eqb g1 SInline)|]; discriminate. }
+  destruct (evolve_pred _ _ _ _ Hev Hx') as [(x & Hx & Htsx & _)|(Hxn & a2 & t2 & g2 & fin2 & deps2 & kind2 & -> & Hso2)].
+  2: { exfalso. destruct (tstep_static _ _ _ HtsF) as (_ & E1 & _ & _ & E2 & _). cbn in Ht.
+       eapply (no_final_absurd s t2); [exact (so_nofinal _ _ _ _ _ _ _ _ Hso2)|exact HF|congruence|congruence]. }
+  destruct (tstep_static _ _ _ HtsF) as (_ & E1 & E1s & _ & E2 & E2d & _).
+  destruct (tstep_static _ _ _ Htsx) as (_ & E3 & E3s & _ & _ & _ & E3k).
+  assert (Hcov0 : covered F kx x).
+  { destruct Hcov as [C1 C2]. split; [congruence|]. rewrite E2d, E3s, E1s in C2. exact C2. }
+  apply (good_stable _ _ _ Htsx).
+  assert (Hfin0 : k_final F = true) by congruence. assert (Ht0 : k_t x = k_t F) by congruence.
+  (* was the final task already past its done-check? *)
+  assert (Hcase : after_check F \/ (k_st F = TDeps /\ coord_done s (k_t F) = false)).
+  { destruct (Hfl kf F HF) as (_ & Fl2 & _ & _).
+    destruct HtsF; unfold after_check in *; cbn [k_st k_ran_main with_st with_flags with_phase with_assoc with_permit with_released] in Hac;
+      auto; try (destruct Hac as [Hac|Hac]; [discriminate Hac|auto]; fail).
+    - destruct Hac; discriminate.
+    - left. right. apply Fl2. auto. }
+  destruct Hcase as [Hac0|[HstF Hnd]]; [exact (I kf F kx x HF Hx Hfin0 Ht0 Hne Hac0 Hcov0)|].
+  (* the done-check of the final task just answered false *)
+  assert (Hpm : past_main (k_st x) = true).
+  { destruct Hcov0 as [C1 C2].
+    assert (Hdep : In kx (k_deps F) -> past_main (k_st x) = true).
+    { intros Hin. destruct (P3 kf F kx HF) as (x0 & Hx0 & He); [now rewrite HstF|exact Hin|].
+      rewrite Hx in Hx0. injection Hx0 as <-. now rewrite He. }
+    destruct (P2 kf F kx x HF Hx Hfin0 Ht0 Hne) as [G|[G|[G|G]]]; [contradiction|auto|exact G|].
+    destruct C2 as [C2|C2]; [auto|contradiction]. }
+  assert (Hok : k_main_ok x = true).
+  { destruct (k_main_ok x) eqn:Eok; [reflexivity|].
+    pose proof (Hfd kx x Hx Hpm Eok) as Hdone. rewrite Ht0 in Hdone. congruence. }
+  destruct (Hfl kx x Hx) as (Fl1 & _ & _ & Fl4). destruct (Fl4 Hok) as [Hran _].
+  repeat split; try assumption.
+  destruct (k_skipped x) eqn:Esk; [|reflexivity]. destruct (Fl1 eq_refl) as (_ & Hc & _). congruence.
+Qed.
+
+Lemma good_inv_reachable a b c d e f g h s : reachable (init a b c d e f g h) s -> good_inv s.
+Proof.
+  intros Hr.
+  assert (G : forall s1, reachable (init a b c d e f g h) s1 ->
+              reachable (init a b c d e f g h) s1 /\ good_inv s1).
+  { apply invariant_reachable.
+    - split; [apply reachable_refl|]. intros kf F kx x HF. discriminate HF.
+    - intros s0 ev s1 [Hr0 I] H. split; [eapply reachable_step; eauto|]. eapply good_inv_step; eauto. }
+  now apply G.
+Qed.
+
+Definition success_final_inv (s : state) : Prop :=
+  forall t c, find_coord t (coords s) = Some c -> c_status c = Success ->
+    exists kf F, find_task kf (tasks s) = Some F /\ k_final F = true /\ k_t F = t /\ k_ran_main F = true.
+
+Lemma tstep_ran_main s x y :
+  tstep s x y -> k_ran_main x = true ->
+  (k_st x = TMain \/ k_st x = TFailed \/ past_main (k_st x) = true) -> k_ran_main y = true.
+Proof.
+  intros H Hr Hst. destruct H; cbn; auto.
+  rewrite H in Hst. destruct Hst as [Hs|[Hs|Hs]]; discriminate.
+Qed.
+
+Lemma success_final_inv_step a b c d e0 f g h s e s' :
+  reachable (init a b c d e0 f g h) s -> success_final_inv s -> step s e = Some s' -> success_final_inv s'.
+Proof.
+  intros Hr I H t c' Hc' Hs.
+  pose proof (flags_reachable _ _ _ _ _ _ _ _ _ Hr) as Hfl.
+  pose proof (step_evolve _ _ _ H) as (Hold & _ & _ & _).
+  pose proof (step_coords_step _ _ _ H) as [_ Hfresh].
+  destruct (find_coord t (coords s)) as [c0|] eqn:Ec0.
+  2: { rewrite (Hfresh t c' Hc' Ec0) in Hs. discriminate Hs. }
+  assert (Hkeep : c_status c0 = Success ->
+            exists kf F, find_task kf (tasks s') = Some F /\ k_final F = true /\ k_t F = t /\ k_ran_main F = true).
+  { intros Hs0. destruct (I t c0 Ec0 Hs0) as (kf & F & HF & Hfin & Ht & Hran).
+    destruct (Hold kf F HF) as (F' & HF' & Hts & _). exists kf, F'. split; [exact HF'|].
+    destruct (tstep_static _ _ _ Hts) as (_ & E1 & _ & _ & E2 & _). rewrite E1, E2.
+    repeat split; try assumption. eapply tstep_ran_main; eauto.
+    destruct (Hfl kf F HF) as (_ & _ & Fl3 & _). now destruct (Fl3 Hran). }
+  destruct (success_only_by_set_result _ _ _ H) as [Hnn|(k & x & -> & Hb & Hx & Hst & Hfin & Htasks & Hcase)].
+  - apply Hkeep. eapply Hnn; eauto.
+  - destruct (Hcase t c0 c' Ec0 Hc' Hs) as [Hs0| ->]; [now apply Hkeep|].
+    exists k, x. rewrite Htasks. repeat split; try assumption.
+    destruct (Hfl k x Hx) as (_ & Fl2 & _ & _). now destruct (Fl2 (or_introl Hst)).
+Qed.
+
+Lemma success_final_inv_reachable a b c d e f g h s :
+  reachable (init a b c d e f g h) s -> success_final_inv s.
+Proof.
+  intros Hr.
+  assert (G : forall s1, reachable (init a b c d e f g h) s1 ->
+              reachable (init a b c d e f g h) s1 /\ success_final_inv s1).
+  { apply invariant_reachable.
+    - split; [apply reachable_refl|]. intros t c0 Hc. discriminate Hc.
+    - intros s0 ev s1 [Hr0 I] H. split; [eapply reachable_step; eauto|]. eapply success_final_inv_step; eauto. }
+  now apply G.
+Qed.
+
+(** ** The C03 statements *)
+Theorem failed_implies_done a b c d e f g h s k x :
+  reachable (init a b c d e f g h) s -> find_task k (tasks s) = Some x ->
+  past_main (k_st x) = true -> k_main_ok x = false ->
+  exists co, find_coord (k_t x) (coords s) = Some co /\ is_done (c_status co) = true.
+Proof.
+  intros Hr Hx Hp Hok. pose proof (failed_done_inv_reachable _ _ _ _ _ _ _ _ _ Hr k x Hx Hp Hok) as Hd.
+  unfold coord_done in Hd. destruct (find_coord (k_t x) (coords s)) as [co|]; [eauto|discriminate].
+Qed.
+
+(** the only position where a failure is not yet recorded is TFailed; a task
+    that is skipped, or whose main did not return normally, and that is past
+    TFailed has main_ok = false *)
+Theorem recorded_or_ok a b c d e f g h s k x :
+  reachable (init a b c d e f g h) s -> find_task k (tasks s) = Some x ->
+  (k_skipped x = true -> past_main (k_st x) = true /\ k_main_ok x = false /\ k_ran_main x = false) /\
+  (k_main_ok x = true -> k_ran_main x = true /\ k_skipped x = false /\ past_main (k_st x) = true).
+Proof.
+  intros Hr Hx. destruct (flags_reachable _ _ _ _ _ _ _ _ _ Hr k x Hx) as (F1 & F2 & F3 & F4).
+  split; [exact F1|]. intros Hok. destruct (F4 Hok) as [G1 G2]. destruct (F3 G1) as [G3 _]. auto.
+Qed.
+
+(** a done-check that answers "not done": at that moment no task of the
+    transfer had failed (with the failure recorded) or been skipped, and the
+    transfer was neither failed nor cancelled *)
+Theorem no_skip_before_nondone_check a b c d e f g h s k s' x :
+  reachable (init a b c d e f g h) s -> step s (EDoneCheck k false) = Some s' ->
+  find_task k (tasks s) = Some x ->
+  (exists co, find_coord (k_t x) (coords s) = Some co /\ is_done (c_status co) = false) /\
+  forall ky y, find_task ky (tasks s) = Some y -> k_t y = k_t x ->
+    k_skipped y = false /\ (past_main (k_st y) = true -> k_main_ok y = true /\ k_ran_main y = true).
+Proof.
+  intros Hr H Hx. cbn [step] in H. rewrite Hx in H.
+  destruct (find_coord (k_t x) (coords s)) as [co|] eqn:Eco; [|discriminate].
+  destruct (tst_eqb (k_st x) TDeps && eqb false (is_done (c_status co))) eqn:Eg; [|discriminate].
+  apply andb_prop in Eg as [_ Eg]. apply eqb_prop in Eg.
+  split; [exists co; auto|]. intros ky y Hy Ht.
+  pose proof (failed_done_inv_reachable _ _ _ _ _ _ _ _ _ Hr ky y Hy) as Hfd.
+  destruct (flags_reachable _ _ _ _ _ _ _ _ _ Hr ky y Hy) as (F1 & _ & _ & F4).
+  assert (Hnd : coord_done s (k_t y) = false) by (unfold coord_done; rewrite Ht, Eco; auto).
+  assert (Hpm : past_main (k_st y) = true -> k_main_ok y = true).
+  { intros Hp. destruct (k_main_ok y) eqn:E; [reflexivity|]. rewrite (Hfd Hp eq_refl) in Hnd. discriminate. }
+  split.
+  - destruct (k_skipped y) eqn:E; [|reflexivity]. destruct (F1 eq_refl) as (G1 & G2 & _).
+    rewrite (Hpm G1) in G2. discriminate.
+  - intros Hp. split; [now apply Hpm|]. now destruct (F4 (Hpm Hp)).
+Qed.
+
+(** success: the final task ran its main after a done-check that answered
+    "not done"; its dependencies have ended; and every other task of the
+    transfer (the submission task and, for an IO final task, IO tasks that are
+    not its dependencies excepted) ran its main to normal completion and was
+    not skipped *)
+Theorem success_implies_all_ok a b c d e f g h s t co :
+  reachable (init a b c d e f g h) s -> find_coord t (coords s) = Some co -> c_status co = Success ->
+  exists kf F, find_task kf (tasks s) = Some F /\ k_final F = true /\ k_t F = t /\
+    k_ran_main F = true /\ k_skipped F = false /\
+    (forall kf' F', find_task kf' (tasks s) = Some F' -> k_final F' = true -> k_t F' = t -> kf' = kf) /\
+    (forall d, In d (k_deps F) -> exists x, find_task d (tasks s) = Some x /\ k_t x = t /\ k_st x = TEnded) /\
+    (forall kx x, find_task kx (tasks s) = Some x -> k_t x = t -> kx <> kf ->
+       kx < kf /\
+       (k_kind x <> KSubmission ->
+        In kx (k_deps F) \/ ~ (k_stage x = SIO /\ k_stage F = SIO) ->
+        past_main (k_st x) = true /\ k_main_ok x = true /\ k_skipped x = false /\ k_ran_main x = true)).
+Proof.
+  intros Hr Hc Hs.
+  destruct (success_final_inv_reachable _ _ _ _ _ _ _ _ _ Hr t co Hc Hs) as (kf & F & HF & Hfin & Ht & Hran).
+  pose proof (plan_inv_reachable _ _ _ _ _ _ _ _ _ Hr) as [P1 P2 P3 P4].
+  destruct (flags_reachable _ _ _ _ _ _ _ _ _ Hr kf F HF) as (_ & _ & Fl3 & _).
+  destruct (Fl3 Hran) as [Hnsk Hst].
+  exists kf, F. split; [exact HF|]. split; [exact Hfin|]. split; [exact Ht|]. split; [exact Hran|].
+  split; [exact Hnsk|]. split; [|split].
+  - intros kf' F' HF' Hfin' Ht'.
+    assert (kf' <= kf) by (eapply (P1 kf F kf' F'); eauto; congruence).
+    assert (kf <= kf') by (eapply (P1 kf' F' kf F); eauto; congruence). lia.
+  - intros dd Hd. destruct (P4 kf F dd HF Hd) as (x & Hx & Hxt & _).
+    destruct (P3 kf F dd HF) as (x0 & Hx0 & He); [|exact Hd|].
+    + destruct Hst as [-> |[-> |Hp]]; try reflexivity. destruct (k_st F); try discriminate; reflexivity.
+    + rewrite Hx in Hx0. injection Hx0 as <-. exists x. repeat split; congruence.
+  - intros kx x Hx Hxt Hne. split.
+    + assert (kx <= kf) by (eapply (P1 kf F kx x); eauto; congruence). lia.
+    + intros Hk Hc0. eapply (good_inv_reachable _ _ _ _ _ _ _ _ _ Hr kf F kx x); eauto; try congruence.
+      * right. exact Hran.
+      * split; assumption.
+Qed.
+
+(** * Part 13 (C18): the shutdown phase and the ghost counter *)
+Definition bump_cause (s : state) : Prop :=
+  (exists a x, find_task a (tasks s) = Some x /\ k_st x = TMain) \/
+  (exists t c a, find_coord t (coords s) = Some c /\ (c_cl_runner c = Some a \/ c_cb_runner c = Some a)).
+
+Inductive shstep (s s' : state) : Prop :=
+  | sh_same : shutdown_phase s' = shutdown_phase s -> after_shutdown_events s' = after_shutdown_events s -> shstep s s'
+  | sh_bump : shutdown_phase s' = shutdown_phase s -> bump_cause s -> shstep s s'
+  | sh_begin : shutdown_phase s = 0 -> shutdown_phase s' = 1 ->
+      after_shutdown_events s' = after_shutdown_events s -> shstep s s'
+  | sh_return : shutdown_phase s = 1 -> shutdown_phase s' = 2 ->
+      after_shutdown_events s' = after_shutdown_events s ->
+      g_joined (st_sub s) = true -> g_joined (st_req s) = true -> g_joined (st_io s) = true -> shstep s s'.
+
+Lemma bump_after s : after_shutdown_events (bump_after_shutdown s) = after_shutdown_events s \/ shutdown_phase s = 2.
+Proof. unfold bump_after_shutdown. destruct (shutdown_phase s =? 2) eqn:E; [right; lia|now left]. Qed.
+
+Ltac sh_simpl :=
+  repeat first [ rewrite set_stage_shutdown_phase | rewrite set_stage_after | rewrite bump_shutdown_phase
+               | progress cbn [shutdown_phase after_shutdown_events set_tasks set_sems set_reqs set_uploads
+                               set_shutdown set_coords set_files] ].
+
+Ltac sh_same_tac := apply sh_same; sh_simpl; reflexivity.
+
+(** after the guards have been destructed: a step whose result is built on
+    [bump_after_shutdown s] *)
+Ltac sh_bump_tac Hcause :=
+  apply sh_bump; [sh_simpl; reflexivity|exact Hcause].
+
+Lemma cause_task s a t kd :
+  match find_task a (tasks s) with
+  | Some x => (k_t x =? t) && tst_eqb (k_st x) TMain && (k_kind x =? kd) | None => false end = true ->
+  bump_cause s.
+Proof.
+  destruct (find_task a (tasks s)) as [x|] eqn:Ex; [|discriminate]. intros Hb. left. exists a, x.
+  split; [exact Ex|]. split_ands. now apply tst_eqb_true.
+Qed.
+
+Lemma cause_cleaner s a t :
+  match find_coord t (coords s) with
+  | Some c => match c_cl_runner c with Some b => b =? a | None => false end | None => false end = true ->
+  bump_cause s.
+Proof.
+  destruct (find_coord t (coords s)) as [c0|] eqn:Ec; [|discriminate].
+  destruct (c_cl_runner c0) as [b|] eqn:Er; [|discriminate]. intros _. right. exists t, c0, b. auto.
+Qed.
+
+Lemma step_shstep s e s' : step s e = Some s' -> shstep s s'.
+Proof.
+  intros H. destruct e; cbn [step] in H.
+  18: { (* EOnProgress *)
+    destruct (find_task a (tasks s)) as [x|] eqn:Ex; [|discriminate].
+    destruct ((k_t x =? t) && tst_eqb (k_st x) TMain && negb (k_kind x =? KSubmission)) eqn:Eg; [|discriminate].
+    assert (Hc : bump_cause s).
+    { left. exists a, x. split; [exact Ex|]. split_ands. now apply tst_eqb_true. }
+    unfold on_coord in H. destr H. injection H as <-. sh_bump_tac Hc. }
+  21: { (* ECleanup *)
+    destruct (busy s a); [discriminate|]. unfold on_coord in H. rewrite bump_coords in H.
+    destruct (find_coord t (coords s)) as [c0|] eqn:Ec; [|discriminate].
+    destruct (c_cl_runner c0) as [b|] eqn:Er; [|discriminate].
+    assert (Hc : bump_cause s) by (right; exists t, c0, b; auto).
+    destr H. injection H as <-. sh_bump_tac Hc. }
+  24: { (* ECallback *)
+    destruct (busy s a); [discriminate|]. unfold on_coord in H. rewrite bump_coords in H.
+    destruct (find_coord t (coords s)) as [c0|] eqn:Ec; [|discriminate].
+    destruct (c_cb_runner c0) as [b|] eqn:Er; [|discriminate].
+    assert (Hc : bump_cause s) by (right; exists t, c0, b; auto).
+    destr H. injection H as <-. sh_bump_tac Hc. }
+  30: { (* ES3Begin *)
+    destruct (busy s a); [discriminate|].
+    destruct (find_req r (reqs s)); [discriminate|]. cbn [andb] in H.
+    match type of H with (if ?b then _ else _) = _ => destruct b eqn:Ewho; [|discriminate] end.
+    assert (Hc : bump_cause s).
+    { destruct (s3op_eqb op OpAbort).
+      - destruct (find_coord t (coords s)) as [c0|] eqn:Ec; [|discriminate].
+        destruct (c_cl_runner c0) as [b|] eqn:Er; [|discriminate]. right. exists t, c0, b. auto.
+      - destruct (find_task a (tasks s)) as [x|] eqn:Ex; [|discriminate]. left. exists a, x.
+        split; [exact Ex|]. split_ands. now apply tst_eqb_true. }
+    destruct op; destr H; injection H as <-; sh_bump_tac Hc. }
+  33: { (* EFs *)
+    destruct (busy s a); [discriminate|].
+    destruct op; destruct (find_file t (files s)); try discriminate; destr H; injection H as <-;
+      apply sh_bump; try (sh_simpl; reflexivity);
+      try (match goal with Hb : _ || _ = true |- _ => apply orb_prop in Hb as [Hb|Hb] end);
+      try (match goal with Hb : _ && _ = true |- _ => apply andb_prop in Hb as [Hb _] end);
+      try (match goal with Hb : _ && _ = true |- _ => apply andb_prop in Hb as [Hb _] end);
+      first [ eapply cause_task; eassumption | eapply cause_cleaner; eassumption ]. }
+  33: { (* EShutdownBegin *) destr H. injection H as <-. apply sh_begin; [lia|reflexivity|reflexivity]. }
+  35: { (* EShutdownReturn *)
+    destr H. injection H as <-. split_ands. apply sh_return; try reflexivity; try assumption; lia. }
+  all: unfold on_task, on_coord, bind in H; destr H; injection H as <-; try sh_same_tac.
+  all: match goal with Hq : _ = Some ?s0 |- _ => destr Hq; injection Hq as <-; sh_same_tac end.
+Qed.
+
+(** a joined stage is shut, idle and empty -- and stays so *)
+Definition joined_inv (s : state) : Prop :=
+  forall g, g <> SInline -> g_joined (get_stage s g) = true ->
+    g_shut (get_stage s g) = true /\ g_running (get_stage s g) = 0 /\ g_queue (get_stage s g) = [].
+
+Lemma count_pos p l x : In x l -> p x = true -> 1 <= count p l.
+Proof.
+  induction l as [|y r IH]; cbn [In count]; [tauto|].
+  intros [->|Hin] Hp.
+  - rewrite Hp. pose proof (count_nonneg p r). cbn [b2z]. lia.
+  - specialize (IH Hin Hp). unfold b2z. destruct (p y); lia.
+Qed.
+
+Lemma joined_inv_step s e s' :
+  run_inv s -> joined_inv s -> step s e = Some s' ->
+  joined_inv s' /\ (forall g, g <> SInline -> g_joined (get_stage s g) = true -> g_joined (get_stage s' g) = true).
+Proof.
+  intros Irun I H. apply step_sstep in H.
+  assert (Hsame : same_stages s s' -> joined_inv s' /\
+            (forall g, g <> SInline -> g_joined (get_stage s g) = true -> g_joined (get_stage s' g) = true)).
+  { intros Hs. split; [intros g Hg; rewrite (Hs g); now apply I|intros g Hg; now rewrite (Hs g)]. }
+  destruct H as [Ht Hs _|k t g0 a final deps kind Hn _ Ht _ Hs _|k x f Hf Hid Hts Hio Ht Hs _
+                |k x sem v Hf _ _ _ _ Ht _ Hs _|k x Hf Hst _ Hni Hsh Ht Hs _ _|k x rest Hf Hst Hni Hq _ Ht Hs _ _
+                |k x Hf Hni Hst _ Ht Hs _ _|k x Hf _ _ _ Ht _ Hs _|g0 Hg0 Ht _ _ _ Hs|g0 Hg0 Ht _ _ Hsh Hrun Hq Hs];
+    try (now apply Hsame).
+  - (* enqueue: the stage is not shut, hence not joined *)
+    split; intros g Hg; destruct (stage_set_cases _ _ _ _ g Hs) as [[-> E]|[Hne E]]; rewrite E; cbn;
+      try (now apply I); try tauto.
+    intros Hj. destruct (I _ Hg Hj) as [Hc _]. congruence.
+  - (* start: the queue is not empty *)
+    split; intros g Hg; destruct (stage_set_cases _ _ _ _ g Hs) as [[-> E]|[Hne E]]; rewrite E; cbn;
+      try (now apply I); try tauto.
+    intros Hj. destruct (I _ Hg Hj) as (_ & _ & Hc). congruence.
+  - (* end: a task is running *)
+    split; intros g Hg; destruct (stage_set_cases _ _ _ _ g Hs) as [[-> E]|[Hne E]]; rewrite E; cbn;
+      try (now apply I); try tauto.
+    intros Hj. destruct (I _ Hg Hj) as (_ & Hc & _). exfalso.
+    rewrite (Irun _ Hg) in Hc. destruct (find_task_in _ _ _ Hf) as [Hin _].
+    assert (1 <= count (runs_in (k_stage x)) (tasks s)); [|lia].
+    apply (count_pos _ _ x Hin). unfold runs_in. rewrite stage_eqb_refl.
+    destruct (k_final x); rewrite Hst; reflexivity.
+  - (* shut *)
+    split; intros g Hg; destruct (stage_set_cases _ _ _ _ g Hs) as [[-> E]|[Hne E]]; rewrite E; cbn;
+      try (now apply I); try tauto.
+    intros Hj. destruct (I _ Hg Hj) as (_ & H1 & H2). auto.
+  - (* join *)
+    split; intros g Hg; destruct (stage_set_cases _ _ _ _ g Hs) as [[-> E]|[Hne E]]; rewrite E; cbn;
+      try (now apply I); try tauto.
+Qed.
+
+Definition shutdown_inv (s : state) : Prop :=
+  joined_inv s /\
+  (shutdown_phase s = 2 ->
+   g_joined (st_sub s) = true /\ g_joined (st_req s) = true /\ g_joined (st_io s) = true) /\
+  0 <= shutdown_phase s <= 2.
+
+Lemma shutdown_inv_step s e s' : run_inv s -> shutdown_inv s -> step s e = Some s' -> shutdown_inv s'.
+Proof.
+  intros Irun (I1 & I2 & I3) H. destruct (joined_inv_step _ _ _ Irun I1 H) as [J1 J2].
+  split; [exact J1|].
+  assert (Hkeep : g_joined (st_sub s) = true /\ g_joined (st_req s) = true /\ g_joined (st_io s) = true ->
+                  g_joined (st_sub s') = true /\ g_joined (st_req s') = true /\ g_joined (st_io s') = true).
+  { intros (A & B & C). repeat split.
+    - apply (J2 SSub); [discriminate|exact A].
+    - apply (J2 SReq); [discriminate|exact B].
+    - apply (J2 SIO); [discriminate|exact C]. }
+  apply step_shstep in H. destruct H as [Hp _|Hp _|Hp0 Hp1 _|Hp0 Hp1 _ A B C].
+  - rewrite Hp. split; [intros E; apply Hkeep; auto|exact I3].
+  - rewrite Hp. split; [intros E; apply Hkeep; auto|exact I3].
+  - rewrite Hp1. split; [discriminate|lia].
+  - rewrite Hp1. split; [intros _; apply Hkeep; auto|lia].
+Qed.
+
+Lemma shutdown_inv_reachable a b c d e f g h s : reachable (init a b c d e f g h) s -> shutdown_inv s.
+Proof.
+  apply invariant_reachable2 with (Q := run_inv); [apply run_inv_reachable| |].
+  - split; [|split; [discriminate|cbn; lia]]. intros g0 Hg. destruct g0; cbn; discriminate.
+  - intros s0 ev s1 Q I H. eapply shutdown_inv_step; eauto.
+Qed.
+
+(** * Part 14 (C18): after shutdown returned no task is started-and-not-ended *)
+Lemma static_reachable a b c d e f g h s :
+  reachable (init a b c d e f g h) s ->
+  forall k x, find_task k (tasks s) = Some x ->
+    0 <= k_id x /\ (k_kind x = KSubmission \/ k_parent x < k_id x) /\
+    (k_stage x = SInline -> k_kind x <> KSubmission).
+Proof.
+  intros Hr. apply (task_inv_reachable (fun x =>
+    0 <= k_id x /\ (k_kind x = KSubmission \/ k_parent x < k_id x) /\
+    (k_stage x = SInline -> k_kind x <> KSubmission)) (init a b c d e f g h)); [reflexivity| | |exact Hr].
+  - intros s0 a0 k t g0 final deps kind Hso. cbn [fresh_task k_id k_kind k_parent k_stage].
+    split; [exact (so_nonneg _ _ _ _ _ _ _ _ Hso)|]. split.
+    + pose proof (so_who _ _ _ _ _ _ _ _ Hso) as Hw. destruct (kind =? KSubmission) eqn:Ek; [left; lia|right].
+      apply andb_prop in Hw as [_ Hw]. unfold acting_task in Hw.
+      destruct (find_task a0 (tasks s0)) as [p|] eqn:Ep; [|discriminate].
+      destruct (find_task_in _ _ _ Ep) as [Hin Hid].
+      pose proof (so_ids _ _ _ _ _ _ _ _ Hso) as Hids. rewrite forallb_forall in Hids.
+      specialize (Hids p Hin). lia.
+    + intros -> Hk. pose proof (so_kind _ _ _ _ _ _ _ _ Hso) as Hks. unfold kind_stage_ok in Hks.
+      rewrite Hk in Hks. cbn in Hks. discriminate.
+  - intros s0 x y Hts Hx. destruct (tstep_static _ _ _ Hts) as (E1 & _ & E3 & E4 & _ & _ & E7).
+    now rewrite E1, E3, E4, E7.
+Qed.
+
+Lemma task_eq_dec (x y : task) : {x = y} + {x <> y}.
+Proof.
+  decide equality; try apply Z.eq_dec; try apply bool_dec;
+    try (apply list_eq_dec; apply Z.eq_dec); decide equality.
+Qed.
+
+Lemma busy_child s k x :
+  find_task k (tasks s) = Some x -> k_stage x = SInline -> running_st (k_st x) = true ->
+  busy s (k_parent x) = true.
+Proof.
+  intros Hx Hs Hr. unfold busy. apply orb_true_iff. right. apply existsb_exists.
+  exists x. destruct (find_task_in _ _ _ Hx) as [Hin _]. split; [exact Hin|].
+  rewrite Z.eqb_refl, Hs. cbn. destruct (k_st x); try discriminate; reflexivity.
+Qed.
+
+Lemma tstep_becomes_running s x y :
+  tstep s x y -> running_st (k_st x) = false -> running_st (k_st y) = true -> k_st x = TQueued.
+Proof.
+  intros H H1 H2. destruct H; cbn in H2; try congruence;
+    try (match goal with Hst : k_st _ = _ |- _ => rewrite Hst in H1; discriminate end).
+Qed.
+
+Lemma acting_running v : acting_st v = true -> running_st v = true.
+Proof. destruct v; cbn; congruence. Qed.
+
+Definition inline_inv (s : state) : Prop :=
+  forall k x, find_task k (tasks s) = Some x -> k_stage x = SInline -> running_st (k_st x) = true ->
+    exists p, find_task (k_parent x) (tasks s) = Some p /\ acting_st (k_st p) = true.
+
+Lemma inline_inv_step a b c d e0 f g h s e s' :
+  reachable (init a b c d e0 f g h) s -> inline_inv s -> step s e = Some s' -> inline_inv s'.
+Proof.
+  intros Hr I H k x' Hx' Hinl Hrun. pose proof (step_evolve _ _ _ H) as Hev.
+  destruct (evolve_pred _ _ _ _ Hev Hx') as [(x & Hx & Hts & Hl)|(_ & a1 & t & g1 & fin & deps & kind & -> & _)].
+  2: { cbn in Hrun. destruct (stage_eqb g1 SInline); discriminate. }
+  destruct (tstep_static _ _ _ Hts) as (_ & _ & E3 & E4 & _). rewrite E3 in Hinl. rewrite E4.
+  destruct Hev as (Hold & _ & _ & Hone).
+  destruct (running_st (k_st x)) eqn:Erx.
+  - destruct (I k x Hx Hinl Erx) as (p & Hp & Hact).
+    destruct (Hold _ _ Hp) as (p' & Hp' & Htsp & Hlp). exists p'. split; [exact Hp'|].
+    destruct (acting_st (k_st p')) eqn:Eap; [reflexivity|exfalso].
+    pose proof (lo_act _ _ _ _ _ Hlp Hact Eap) as Hb.
+    rewrite (busy_child _ _ _ Hx Hinl Erx) in Hb. discriminate.
+  - pose proof (tstep_becomes_running _ _ _ Hts Erx Hrun) as Hq.
+    assert (Hnq : k_st x' <> TQueued) by (intros Hc; rewrite Hc in Hrun; discriminate).
+    destruct (lo_inl _ _ _ _ _ Hl Hinl Hq Hnq) as [_ Hact]. unfold acting_task in Hact.
+    destruct (find_task (k_parent x) (tasks s)) as [p|] eqn:Ep; [|discriminate].
+    destruct (Hold _ _ Ep) as (p' & Hp' & Htsp & _). exists p'. split; [exact Hp'|].
+    assert (p' = p).
+    { destruct (task_eq_dec p' p) as [E|N]; [exact E|exfalso].
+      assert (Nx : x' <> x) by (intros Hc; rewrite Hc in Hrun; congruence).
+      pose proof (Hone _ _ _ _ _ _ Ep Hx Hp' Hx' N Nx) as Hk.
+      destruct (static_reachable _ _ _ _ _ _ _ _ _ Hr k x Hx) as (_ & [Hs|Hs] & Hs2).
+      - now apply Hs2.
+      - apply find_task_some_id in Hx. lia. }
+    subst p'. apply andb_prop in Hact as [_ Hact]. apply orb_prop in Hact as [Hact|Hact];
+      apply tst_eqb_true in Hact; now rewrite Hact.
+Qed.
+
+Lemma inline_inv_reachable a b c d e f g h s : reachable (init a b c d e f g h) s -> inline_inv s.
+Proof.
+  intros Hr.
+  assert (G : forall s1, reachable (init a b c d e f g h) s1 ->
+              reachable (init a b c d e f g h) s1 /\ inline_inv s1).
+  { apply invariant_reachable.
+    - split; [apply reachable_refl|]. intros k x Hx. discriminate Hx.
+    - intros s0 ev s1 [Hr0 I] H. split; [eapply reachable_step; eauto|]. eapply inline_inv_step; eauto. }
+  now apply G.
+Qed.
+
+(** every executor joined: no task at all is started-and-not-ended *)
+Lemma joined_no_running a b c d e f g h s :
+  reachable (init a b c d e f g h) s ->
+  g_joined (st_sub s) = true -> g_joined (st_req s) = true -> g_joined (st_io s) = true ->
+  forall k x, find_task k (tasks s) = Some x -> running_st (k_st x) = false.
+Proof.
+  intros Hr J1 J2 J3.
+  destruct (shutdown_inv_reachable _ _ _ _ _ _ _ _ _ Hr) as (Hj & _ & _).
+  pose proof (run_inv_reachable _ _ _ _ _ _ _ _ _ Hr) as Hrun.
+  pose proof (inline_inv_reachable _ _ _ _ _ _ _ _ _ Hr) as Hinl.
+  pose proof (static_reachable _ _ _ _ _ _ _ _ _ Hr) as Hstat.
+  assert (Hstage : forall k x, find_task k (tasks s) = Some x -> k_stage x <> SInline ->
+                               running_st (k_st x) = false).
+  { intros k x Hx Hs. destruct (find_task_in _ _ _ Hx) as [Hin _].
+    assert (Hj0 : g_joined (get_stage s (k_stage x)) = true) by (destruct (k_stage x); auto; congruence).
+    destruct (Hj _ Hs Hj0) as (_ & H0 & _). rewrite (Hrun _ Hs) in H0.
+    pose proof (count_zero_inv _ _ x H0 Hin) as Hc. unfold runs_in in Hc.
+    now rewrite stage_eqb_refl in Hc. }
+  intros k. pattern k. apply (well_founded_induction (Z.lt_wf 0)). clear k.
+  intros k IH x Hx. destruct (stage_dec (k_stage x) SInline) as [Hs|Hs]; [|eapply Hstage; eauto].
+  destruct (running_st (k_st x)) eqn:Er; [exfalso|reflexivity].
+  destruct (Hinl k x Hx Hs Er) as (p & Hp & Hact).
+  destruct (Hstat k x Hx) as (_ & Hpar & Hnk). destruct (Hstat _ _ Hp) as (Hp0 & _ & _).
+  pose proof (find_task_some_id _ _ _ Hx) as Hid. pose proof (find_task_some_id _ _ _ Hp) as Hidp.
+  destruct Hpar as [Hpar|Hpar]; [now apply Hnk|].
+  assert (Hlt : 0 <= k_parent x < k) by lia.
+  pose proof (IH _ Hlt p Hp) as Hnr. apply acting_running in Hact. congruence.
+Qed.
+
+Theorem all_done_at_shutdown_return_partial a b c d e f g h s :
+  reachable (init a b c d e f g h) s -> shutdown_phase s = 2 ->
+  (forall g0, g0 <> SInline ->
+     g_joined (get_stage s g0) = true /\ g_shut (get_stage s g0) = true /\
+     g_running (get_stage s g0) = 0 /\ g_queue (get_stage s g0) = []) /\
+  (forall k x, find_task k (tasks s) = Some x ->
+     running_st (k_st x) = false /\
+     (k_stage x <> SInline -> k_st x = TSubmitting \/ k_st x = TEnded) /\
+     (k_stage x = SInline -> k_st x = TQueued \/ k_st x = TEnded)) /\
+  (forall q, In q (reqs s) -> r_op q <> OpAbort -> r_ended q = true).
+Proof.
+  intros Hr Hp. destruct (shutdown_inv_reachable _ _ _ _ _ _ _ _ _ Hr) as (Hj & Hp2 & _).
+  destruct (Hp2 Hp) as (J1 & J2 & J3).
+  pose proof (joined_no_running _ _ _ _ _ _ _ _ _ Hr J1 J2 J3) as Hnr.
+  split; [|split].
+  - intros g0 Hg. assert (Hj0 : g_joined (get_stage s g0) = true) by (destruct g0; auto; congruence).
+    split; [exact Hj0|]. now apply Hj.
+  - intros k x Hx. pose proof (Hnr k x Hx) as Hn. split; [exact Hn|]. split.
+    + intros Hs. destruct (k_st x) eqn:Est; try discriminate; auto. exfalso.
+      (* queued in a stage: it would be in the (empty) queue *)
+      destruct (queue_inv_reachable _ _ _ _ _ _ _ _ _ Hr _ Hs) as [_ _ _ Q4].
+      assert (Hj0 : g_joined (get_stage s (k_stage x)) = true) by (destruct (k_stage x); auto; congruence).
+      destruct (Hj _ Hs Hj0) as (_ & _ & Hq).
+      assert (Hin : In k (g_queue (get_stage s (k_stage x)))) by (apply Q4; exists x; auto).
+      rewrite Hq in Hin. contradiction.
+    + intros Hs. destruct (k_st x) eqn:Est; try discriminate; auto. exfalso.
+      (* an inline task is never TSubmitting *)
+      clear Hn. revert Hs Est. revert k x Hx.
+      apply (task_inv_reachable (fun x => k_stage x = SInline -> k_st x = TSubmitting -> False)
+               (init a b c d e f g h)); [reflexivity| | |exact Hr].
+      * intros s0 a0 k t g1 fin deps kind _ Hs Hst. cbn in Hs, Hst. subst g1. discriminate.
+      * intros s0 x y Hts Hx Hs Hst. destruct (tstep_static _ _ _ Hts) as (_ & _ & E3 & _).
+        rewrite E3 in Hs. destruct Hts; cbn in Hst; try discriminate; auto; try congruence.
+  - intros q Hq Hop. destruct (r_ended q) eqn:Ee; [reflexivity|exfalso].
+    destruct (req_inv_reachable _ _ _ _ _ _ _ _ _ Hr) as [R1 _].
+    destruct (R1 q Hq Ee Hop) as (x & Hx & Hst & _). pose proof (Hnr _ _ Hx) as Hn.
+    rewrite Hst in Hn. discriminate.
+Qed.
+
+(** * Part 15 (C18): who can announce *)
+Lemma cstep_not_started c c' : cstep c c' -> c_status c' = NotStarted -> c_status c = NotStarted.
+Proof.
+  intros H Hs. destruct H; cbn in Hs; try exact Hs; try discriminate.
+  destruct H0 as [-> | ->]; discriminate.
+Qed.
+
+Definition early_st (v : tst) : bool :=
+  match v with TSubmitting | TQueued | TStarted | TDeps | TReady | TMain => true | _ => false end.
+
+(** while a transfer is not started its only task is the submission task,
+    which has not yet changed the status *)
+Definition ns_inv (s : state) : Prop :=
+  forall t c, find_coord t (coords s) = Some c -> c_status c = NotStarted ->
+    forall k x, find_task k (tasks s) = Some x -> k_t x = t ->
+      k_kind x = KSubmission /\ k_phase x = 0 /\ early_st (k_st x) = true.
+
+Lemma ns_inv_step s e s' : task_coord_inv s -> ns_inv s -> step s e = Some s' -> ns_inv s'.
+Proof.
+  intros Itc I H t c' Hc' Hns k x' Hx' Ht.
+  pose proof (step_evolve _ _ _ H) as Hev.
+  pose proof (step_coords_step _ _ _ H) as [Hcold Hcfresh].
+  destruct (find_coord t (coords s)) as [c|] eqn:Ec.
+  2: { (* no coordinator before: the transfer had no task, and none can be submitted *)
+    exfalso. destruct (evolve_pred _ _ _ _ Hev Hx') as [(x & Hx & Hts & _)|(_ & a1 & t1 & g1 & fin & deps & kind & -> & Hso)].
+    - destruct (tstep_static _ _ _ Hts) as (_ & E & _). destruct (Itc _ _ Hx) as (c0 & Hc0). congruence.
+    - cbn in Ht. subst t1. destruct (so_coord _ _ _ _ _ _ _ _ Hso) as (c0 & Hc0). congruence. }
+  destruct (Hcold t c Ec) as (c'' & Hc'' & Hcs). rewrite Hc' in Hc''. injection Hc'' as <-.
+  pose proof (cstep_not_started _ _ Hcs Hns) as Hns0.
+  destruct (evolve_pred _ _ _ _ Hev Hx') as [(x & Hx & Hts & Hl)|(_ & a1 & t1 & g1 & fin & deps & kind & -> & Hso)].
+  - destruct (tstep_static _ _ _ Hts) as (_ & E & _). rewrite E in Ht.
+    destruct (I t c Ec Hns0 k x Hx Ht) as (Hk & Hp & He).
+    assert (Hnd : coord_done s (k_t x) = false) by (unfold coord_done; rewrite Ht, Ec, Hns0; reflexivity).
+    assert (Hnd' : coord_done s' (k_t x) = false) by (unfold coord_done; rewrite Ht, Hc', Hns; reflexivity).
+    destruct Hts; cbn [k_kind k_phase k_st with_st with_flags with_phase with_assoc with_permit with_released];
+      try (repeat split; assumption);
+      try (match goal with Hst : k_st _ = _ |- _ => rewrite Hst in He; cbn in He; try discriminate He end);
+      try (repeat split; try assumption; reflexivity);
+      try congruence; try lia.
+    + (* submission exception *)
+      exfalso. rewrite (lo_exc _ _ _ _ _ Hl) in Hnd'; [discriminate|]. right. cbn. split; [lia|reflexivity].
+    + (* status *)
+      exfalso. destruct (lo_status _ _ _ _ _ Hl) as (c1 & Hc1 & Hs1); [cbn; lia|lia|].
+      rewrite Ht, Hc' in Hc1. injection Hc1 as <-. destruct Hs1; congruence.
+    + exfalso. destruct (k_final x); match goal with Hst : k_st _ = _ |- _ => rewrite Hst in He; discriminate He end.
+  - cbn [k_t k_kind k_phase k_st fresh_task] in *. subst t1.
+    pose proof (so_who _ _ _ _ _ _ _ _ Hso) as Hw. destruct (kind =? KSubmission) eqn:Ek.
+    + split; [lia|]. split; [reflexivity|]. split_ands.
+      match goal with Hg : stage_eqb g1 SSub = true |- _ => apply stage_eqb_eq in Hg; subst g1 end. reflexivity.
+    + exfalso. apply andb_prop in Hw as [_ Hw]. unfold acting_task in Hw.
+      destruct (find_task a1 (tasks s)) as [p|] eqn:Ep; [|discriminate].
+      apply andb_prop in Hw as [Hw1 Hw2].
+      destruct (I t c Ec Hns0 a1 p Ep ltac:(lia)) as (Hk & Hp & _).
+      pose proof (so_phase _ _ _ _ _ _ _ _ Hso) as Hph. rewrite Ep in Hph.
+      assert (Ek2 : k_kind p =? KSubmission = true) by lia. rewrite Ek2 in Hph. lia.
+Qed.
+
+Lemma ns_inv_reachable a b c d e f g h s : reachable (init a b c d e f g h) s -> ns_inv s.
+Proof.
+  apply invariant_reachable2 with (Q := task_coord_inv); [apply task_coord_inv_reachable| |].
+  - intros t c0 Hc. discriminate Hc.
+  - intros s0 ev s1 Q I H. eapply ns_inv_step; eauto.
+Qed.
+
+Definition is_ann (a : actor) (c : coord) : Prop := ann_phase a (c_announcers c) <> None.
+Definition asub (y c : coord) : Prop :=
+  (forall a, In a (c_owing y) -> In a (c_owing c)) /\ (forall a, is_ann a y -> is_ann a c).
+
+Lemma asub_refl c : asub c c.
+Proof. split; auto. Qed.
+
+Lemma ann_set_sub a0 p l b :
+  ann_phase a0 l <> None -> ann_phase b (ann_set a0 p l) <> None -> ann_phase b l <> None.
+Proof.
+  intros H0 Hb. destruct (Z.eq_dec a0 b) as [->|Hne]; [exact H0|].
+  now rewrite ann_phase_set_other in Hb by exact Hne.
+Qed.
+
+Lemma ann_del_sub a0 l b : ann_phase b (ann_del a0 l) <> None -> ann_phase b l <> None.
+Proof.
+  intros Hb. destruct (Z.eq_dec a0 b) as [->|Hne]; [now rewrite ann_phase_del_same in Hb|].
+  now rewrite ann_phase_del_other in Hb by exact Hne.
+Qed.
+
+Lemma remove_z_sub a0 l b : In b (remove_z a0 l) -> In b l.
+Proof. unfold remove_z. intros H. now apply filter_In in H. Qed.
+
+Lemma on_coord_at s t f s' t0 c0 c0' :
+  on_coord s t f = Some s' -> (forall c y, f c = Some y -> c_id y = c_id c) ->
+  find_coord t0 (coords s) = Some c0 -> find_coord t0 (coords s') = Some c0' ->
+  (t0 <> t /\ c0' = c0) \/ (t0 = t /\ f c0 = Some c0').
+Proof.
+  intros H Hid H0 H0'. apply on_coord_inv in H as (c & y & Hc & Hy & ->). cbn [coords set_coords] in H0'.
+  pose proof (find_coord_some_id _ _ _ Hc) as Hcid. pose proof (Hid c y Hy) as Hyid.
+  rewrite (find_coord_upd_const_gen t t0 _ c y Hc) in H0' by lia.
+  destruct (t0 =? t) eqn:E.
+  - right. assert (t0 = t) by lia. subst t0. split; [reflexivity|]. rewrite Hc in H0. injection H0 as <-.
+    now injection H0' as <-.
+  - left. split; [lia|congruence].
+Qed.
+
+Inductive ann_change (s s' : state) (t : Z) (c c' : coord) : Prop :=
+  | ac_sub : asub c' c -> ann_change s s' t c c'
+  | ac_cancel a0 :
+      c_owing c' = a0 :: c_owing c -> c_announcers c' = c_announcers c -> c_status c = NotStarted ->
+      is_user a0 = true \/ in_callback s a0 t = true \/ acting_task s a0 t = true ->
+      tasks s' = tasks s -> ann_change s s' t c c'
+  | ac_owing a0 :
+      c_owing c' = remove_z a0 (c_owing c) -> c_announcers c' = ann_set a0 0 (c_announcers c) ->
+      mem_z a0 (c_owing c) = true -> ann_phase a0 (c_announcers c) = None -> ann_change s s' t c c'
+  | ac_begin a0 x :
+      c_owing c' = c_owing c -> c_announcers c' = ann_set a0 0 (c_announcers c) ->
+      mem_z a0 (c_owing c) = false -> ann_phase a0 (c_announcers c) = None ->
+      find_task a0 (tasks s) = Some x -> k_t x = t ->
+      (k_kind x = KSubmission /\ k_st x = TMain /\ k_phase x = 4 /\ tasks s' = tasks s) \/
+      (k_kind x <> KSubmission /\ k_final x = true /\ k_st x = TPost /\
+       find_task a0 (tasks s') = Some (with_st x TAnn)) ->
+      ann_change s s' t c c'.
+
+Ltac asub_tac :=
+  cbn; split;
+  [ intros ?b ?Hb; first [ exact Hb | eapply remove_z_sub; exact Hb | idtac ]
+  | unfold is_ann; cbn; intros ?b ?Hb;
+    first [ exact Hb
+          | eapply ann_del_sub; exact Hb
+          | eapply ann_set_sub; [|exact Hb]; congruence
+          | idtac ] ].
+
+Ltac ac_oc H H0 H0' :=
+  let Hf := fresh "Hf" in
+  destruct (on_coord_at _ _ _ _ _ _ _ H
+              ltac:(let c := fresh "c" in let y := fresh "y" in let Hq := fresh "Hq" in
+                    intros c y Hq; cbv beta in Hq; destr Hq; injection Hq as <-; reflexivity)
+              H0 H0') as [[_ ->]|[-> Hf]];
+  [ apply ac_sub, asub_refl
+  | cbv beta in Hf; destr Hf; injection Hf as <-; apply ac_sub; asub_tac ].
+
+Ltac ac_fin H H0 H0' :=
+  first
+    [ injection H as <-;
+      first [ rewrite H0 in H0'; injection H0' as <-; apply ac_sub, asub_refl
+            | match type of H0' with find_coord _ (coords ?s1) = _ =>
+                let E := fresh in assert (E : coords s1 = coords _) by coords_eq;
+                rewrite E, H0 in H0'; injection H0' as <-; apply ac_sub, asub_refl end ]
+    | match type of H with on_task _ _ _ = Some _ =>
+        rewrite (on_task_coords _ _ _ _ H), H0 in H0'; injection H0' as <-; apply ac_sub, asub_refl end
+    | match type of H with on_coord (bump_after_shutdown ?s) _ _ = Some _ =>
+        rewrite <- (bump_coords s) in H0; ac_oc H H0 H0' end
+    | ac_oc H H0 H0'
+    | match type of H with bind _ _ = Some _ =>
+        unfold bind in H;
+        match type of H with match ?o with _ => _ end = _ =>
+          let E1 := fresh "E1" in destruct o eqn:E1; [|discriminate H];
+          rewrite (on_task_coords _ _ _ _ H) in H0'; ac_oc E1 H0 H0' end end ].
+
+Lemma step_ann_change s e s' t c c' :
+  step s e = Some s' -> find_coord t (coords s) = Some c -> find_coord t (coords s') = Some c' ->
+  ann_change s s' t c c'.
+Proof.
+  intros H H0 H0'. destruct e; cbn [step] in H.
+  15: { admit. }
+  19: { admit. }
+  1: { destr_to H. injection H as <-. cbn [coords set_coords] in H0'. rewrite find_coord_app, H0 in H0'.
+       injection H0' as <-. apply ac_sub, asub_refl. }
+  25: { admit. }
+  all: destr_to H; try ac_fin H H0 H0'.
+  Show.
+Admitted.
